@@ -130,6 +130,8 @@ const RunStats &stats();
 uint64_t now_step();
 void on_body_done(void (*cb)(int thread));   // hook: called when a thread's body returned
 void on_thread_exit(void (*cb)(int thread)); // hook: called from the sentinel destructor
+void on_report(void (*cb)(const Report &r)); // hook: called for every oracle hit as it is recorded
+void on_step(void (*cb)(int thread));        // hook: called at every scheduling point of the running thread
 
 /*------------------------------------------------------------------------------
  * Heap log (global operator new/delete are replaced in vsched_rt.cpp)
